@@ -1279,7 +1279,7 @@ def run(ctx):
             jax.clear_caches()
         check_case(case, ctx)
 
-    ctx.run_hypothesis(case_strategy(ctx), chk, ctx.pick(125, 1500), salt="main")
+    ctx.run_hypothesis(case_strategy(ctx), chk, ctx.pick(125, 1000), salt="main")
 
 
 def replay(ctx, case):
